@@ -18,6 +18,7 @@ CONSTANTS
   MaxForce = 0
   MaxLag = 1
   MaxProbes = 1
+  MaxReorg = 0
   ExportOn = TRUE
   SampleMod = 200
 INIT Init
